@@ -245,6 +245,10 @@ def rw_jobs(prop, stress_runs, patterns, stress_args=(), pattern_args=(), varian
                 jobs.append(Job('h_rwlock', variant, pseed(seed, prop, 50 + vi), frm, cnt,
                                 ['mode=pattern'] + list(pattern_args), label='pattern'))
             # one uninterrupted busy period of more than 2^16 queued requests per case (whatever the lock counts per busy period keeps growing)
+            # the first case of these jobs keeps its holder inside for seconds while the other requests are queued
+            if vi == 0:
+                for k in range(1 if q else 6):
+                    jobs.append(Job('h_rwlock', variant, pseed(seed, prop, 95), 260 + 11 * k, 2, ['mode=pattern', 'longhold=%d' % (5600 if q else 11000)], label='long-hold'))
             n_m = marathons[0 if q else 1]
             for frm, cnt in split(n_m, 2 if q else 8):
                 if cnt:
@@ -256,7 +260,7 @@ def rw_jobs(prop, stress_runs, patterns, stress_args=(), pattern_args=(), varian
 RW_FIELDS = ('runs', 'patterns', 'sections', 'reads', 'writes', 'parks', 'maxReaders', 'batches2', 'windowHits',
              'idleAsleepHits', 'runsWithHit', 'pairsLive', 'pairsWW', 'pairsWR', 'pairsRW', 'maxQueue', 'idleProbes',
              'readersNoWriter', 'readerParksJudged', 'rendezvous', 'rendezvousReaders', 'predictedParks',
-             'predictedFast', 'lateArrivalPatterns', 'lateArrivals', 'sectionsNestedInOtherResource', 'recursiveReadLocks', 'queuesDeeperThan64', 'readerCrowdsOver255', 'simultaneousReadersOver255', 'marathonRequests', 'marathonReleasesWithQueue', 'spuriousWakeupsInjected', 'delaysAfterWake', 'delaysCondEntry', 'delaysOther', 'condWaits')
+             'predictedFast', 'lateArrivalPatterns', 'lateArrivals', 'sectionsNestedInOtherResource', 'recursiveReadLocks', 'queuesDeeperThan64', 'readerCrowdsOver255', 'simultaneousReadersOver255', 'holdersKeptInsideForSeconds', 'marathonRequests', 'marathonReleasesWithQueue', 'spuriousWakeupsInjected', 'delaysAfterWake', 'delaysCondEntry', 'delaysOther', 'condWaits')
 
 
 def rw_evidence(rule):
